@@ -1,9 +1,247 @@
-//! STUB component for srat -- to be written
+//! component 13: SRAT.  Case vocabulary documented in coq/theories/Spec/SratS.v.
 use crate::sx::*;
+use crate::tcommon::*;
 use crate::Emit;
+use acpi_tables::srat::*;
 
-pub fn run(_case: &Sx, _out: &mut Vec<Ev>) {
-    panic!("harness: component srat not implemented")
+fn handle(h: &Sx) -> Handle {
+    let h = h.list();
+    let n = |i: usize| h[i].num();
+    match n(0) {
+        0 => Handle::new_acpi(h[1].arr::<8>(), h[2].arr::<4>()),
+        1 => Handle::Pci { segment: n(1) as u16, bus: n(2) as u8, device: n(3) as u8, function: n(4) as u8 },
+        2 => Handle::new_pci(n(1) as u16, n(2) as u8, n(3) as u8, n(4) as u8),
+        _ => panic!("harness: bad srat handle"),
+    }
 }
 
-pub fn gen(_tier: &str, _rng: &mut Rng, _emit: &mut Emit) {}
+pub fn run(case: &Sx, out: &mut Vec<Ev>) {
+    let c = case.list();
+    let ctor = c[0].list();
+    let (oem, tbl, rev) = hdr_args(ctor);
+    let mut t = SRAT::new(oem, tbl, rev);
+    for op in &c[1..] {
+        if let Sx::A(_) = op {
+            out.push(image(&t));
+            continue;
+        }
+        let o = op.list();
+        let n = |i: usize| o[i].num();
+        match n(0) {
+            1 => {
+                let mut m = MemoryAffinity::new(n(1) as u32, n(2), n(3));
+                for b in o[4].list() {
+                    m = match b.list()[0].num() {
+                        1 => m.enabled(),
+                        2 => m.hotpluggable(),
+                        3 => m.nonvolatile(),
+                        _ => panic!("harness: bad memory affinity builder"),
+                    };
+                }
+                t.add_memory_affinity(m)
+            }
+            2 => {
+                let mut g = GenericInitiator::new(n(1) as u32, handle(&o[2]));
+                for b in o[3].list() {
+                    g = match b.list()[0].num() {
+                        1 => g.enabled(),
+                        2 => g.architectural(),
+                        _ => panic!("harness: bad generic initiator builder"),
+                    };
+                }
+                t.add_generic_initiator(g)
+            }
+            3 => {
+                let mut r = RintcAffinity::new(o[1].arr::<4>(), n(2) as u32);
+                for b in o[3].list() {
+                    let b = b.list();
+                    r = match b[0].num() {
+                        1 => r.enabled(),
+                        2 => r.proximity_domain(b[1].num() as u32),
+                        _ => panic!("harness: bad rintc affinity builder"),
+                    };
+                }
+                t.add_rintc_affinity(r)
+            }
+            _ => panic!("harness: bad srat op"),
+        }
+        out.push(Ev::Num(0));
+    }
+}
+
+/// all permutations of a small slice
+fn perms(v: &[u64]) -> Vec<Vec<u64>> {
+    if v.len() <= 1 {
+        return vec![v.to_vec()];
+    }
+    let mut r = Vec::new();
+    for i in 0..v.len() {
+        let mut rest = v.to_vec();
+        let x = rest.remove(i);
+        for mut p in perms(&rest) {
+            p.insert(0, x);
+            r.push(p);
+        }
+    }
+    r
+}
+
+/// every subset of `ids` in every order, plus each of those with one element repeated at a random place
+fn builder_programs(rng: &mut Rng, ids: &[u64]) -> Vec<Vec<u64>> {
+    let mut r = Vec::new();
+    for mask in 0u32..(1 << ids.len()) {
+        let sub: Vec<u64> = ids.iter().enumerate().filter(|(i, _)| mask & (1 << i) != 0).map(|(_, x)| *x).collect();
+        for p in perms(&sub) {
+            r.push(p.clone());
+            if !p.is_empty() {
+                let mut q = p.clone();
+                let x = *rng.pick(&p);
+                let at = rng.below(q.len() as u64 + 1) as usize;
+                q.insert(at, x);
+                r.push(q.clone());
+                q.push(*rng.pick(&p));
+                r.push(q);
+            }
+        }
+    }
+    r
+}
+
+fn flag_builders(p: &[u64]) -> Sx {
+    l(p.iter().map(|b| l(vec![a(*b)])).collect())
+}
+
+fn rintc_builders(rng: &mut Rng, p: &[u64]) -> Sx {
+    l(p.iter().map(|b| if *b == 2 { l(vec![a(2), a(rng.val(32))]) } else { l(vec![a(1)]) }).collect())
+}
+
+fn rand_handle(rng: &mut Rng) -> Sx {
+    match rng.below(10) {
+        0..=2 => l(vec![a(0), blist(&rng.bytes(8)), blist(&rng.bytes(4))]),
+        3..=5 => l(vec![a(2), a(rng.val(16)), a(rng.val(8)), a(rng.below(32)), a(rng.below(8))]),
+        6..=8 => l(vec![a(1), a(rng.val(16)), a(rng.val(8)), a(rng.below(32)), a(rng.below(8))]),
+        // struct literal with out-of-range device / function (outside the specification's domain)
+        _ => l(vec![a(1), a(rng.val(16)), a(rng.val(8)), a(rng.val(8)), a(rng.val(8))]),
+    }
+}
+
+fn rand_list(rng: &mut Rng, ids: &[u64], max: u64) -> Vec<u64> {
+    let k = rng.below(max + 1);
+    (0..k).map(|_| *rng.pick(ids)).collect()
+}
+
+pub fn rand_op(rng: &mut Rng, kind: u64) -> Sx {
+    match kind {
+        1 => {
+            let p = rand_list(rng, &[1, 2, 3], 5);
+            l(vec![a(1), a(rng.val(32)), a(rng.val(64)), a(rng.val(64)), flag_builders(&p)])
+        }
+        2 => {
+            let p = rand_list(rng, &[1, 2], 4);
+            l(vec![a(2), a(rng.val(32)), rand_handle(rng), flag_builders(&p)])
+        }
+        _ => {
+            let p = rand_list(rng, &[1, 2], 4);
+            let b = rintc_builders(rng, &p);
+            l(vec![a(3), blist(&rng.bytes(4)), a(rng.val(32)), b])
+        }
+    }
+}
+
+pub fn gen(tier: &str, rng: &mut Rng, emit: &mut Emit) {
+    let kinds = [1u64, 2, 3];
+    for _ in 0..4 {
+        let c = l(rand_hdr(rng));
+        emit.case(13, history(rng, c, vec![]));
+    }
+    // each entry kind alone, all ordered pairs
+    for k in kinds {
+        for _ in 0..10 {
+            let c = l(rand_hdr(rng));
+            let op = rand_op(rng, k);
+            emit.case(13, history(rng, c, vec![op]));
+        }
+    }
+    for k1 in kinds {
+        for k2 in kinds {
+            for _ in 0..3 {
+                let c = l(rand_hdr(rng));
+                let ops = vec![rand_op(rng, k1), rand_op(rng, k2)];
+                emit.case(13, history(rng, c, ops));
+            }
+        }
+    }
+    // memory affinity: every subset / order / repetition of the three flag builders; split base / length fields
+    for p in builder_programs(rng, &[1, 2, 3]) {
+        let c = l(rand_hdr(rng));
+        let op = l(vec![a(1), a(rng.val(32)), a(rng.val(64)), a(rng.val(64)), flag_builders(&p)]);
+        emit.case(13, history(rng, c, vec![op]));
+    }
+    for (b, n) in [
+        (0u64, 0u64),
+        (0xffff_ffff, 0x1_0000_0000),
+        (0x1_0000_0000, 0xffff_ffff),
+        (u64::MAX, u64::MAX),
+        (0x0102_0304_0506_0708, 0x1112_1314_1516_1718),
+        (0x8000_0000_0000_0000, 0x8000_0000),
+    ] {
+        let c = l(rand_hdr(rng));
+        let op = l(vec![a(1), a(0x2122_2324), a(b), a(n), flag_builders(&[1])]);
+        emit.case(13, history(rng, c, vec![op]));
+    }
+    // generic initiator: both handle kinds (PCI through the asserting constructor and through the struct literal)
+    // with every subset / order / repetition of the two flag builders
+    for p in builder_programs(rng, &[1, 2]) {
+        for hk in 0..3u64 {
+            let c = l(rand_hdr(rng));
+            let h = match hk {
+                0 => l(vec![a(0), blist(&rng.bytes(8)), blist(&rng.bytes(4))]),
+                k => l(vec![a(k), a(rng.val(16)), a(rng.val(8)), a(rng.below(32)), a(rng.below(8))]),
+            };
+            let op = l(vec![a(2), a(rng.val(32)), h, flag_builders(&p)]);
+            emit.case(13, history(rng, c, vec![op]));
+        }
+    }
+    // PCI handle boundaries: device 31 / 32 / 255, function 7 / 8 / 255, through both construction paths
+    for (d, f) in [(0u64, 0u64), (31, 7), (32, 0), (0, 8), (32, 8), (255, 255), (31, 8), (32, 7), (1, 0), (0, 1), (16, 4), (33, 9), (128, 0), (0, 128)] {
+        for hk in [1u64, 2] {
+            let c = l(rand_hdr(rng));
+            let h = l(vec![a(hk), a(rng.val(16)), a(rng.val(8)), a(d), a(f)]);
+            let pre = rand_op(rng, 3);
+            let post = rand_op(rng, 1);
+            let op = l(vec![a(2), a(rng.val(32)), h, flag_builders(&[1])]);
+            emit.case(13, history(rng, c, vec![pre, op, post]));
+        }
+    }
+    // RINTC affinity: every subset / order / repetition of enabled and proximity_domain (last writer wins)
+    for p in builder_programs(rng, &[1, 2]) {
+        for _ in 0..2 {
+            let c = l(rand_hdr(rng));
+            let b = rintc_builders(rng, &p);
+            let op = l(vec![a(3), blist(&rng.bytes(4)), a(rng.val(32)), b]);
+            emit.case(13, history(rng, c, vec![op]));
+        }
+    }
+    // homogeneous runs: 300 of each kind; 3 300 x 20 bytes and 1 640 x 40 bytes cross 65535 -> 65536 bytes
+    for (k, n) in [(3u64, 300usize), (2, 300), (1, 300), (3, 3300), (1, 1640)] {
+        let c = l(rand_hdr(rng));
+        let ops = (0..n).map(|_| rand_op(rng, k)).collect();
+        emit.case(13, history(rng, c, ops));
+    }
+    let n = if tier == "thorough" { 3000 } else { 200 };
+    for _ in 0..n {
+        let c = l(rand_hdr(rng));
+        let len = match rng.below(3) {
+            0 => rng.range(1, 6),
+            1 => rng.range(1, 24),
+            _ => rng.range(25, 120),
+        };
+        let ops = (0..len)
+            .map(|_| {
+                let k = *rng.pick(&kinds);
+                rand_op(rng, k)
+            })
+            .collect();
+        emit.case(13, history(rng, c, ops));
+    }
+}
